@@ -4,7 +4,8 @@
    hooks.  [reachable step init s] quantifies over ALL schedules (sequences of
    thread choices) of any length; page size, item list and number of Consume
    calls are arbitrary. *)
-From PP Require Import Gen.Src_queues Queues.UsqDefs Queues.UsqProofs.
+From Coq Require Import Lia.
+From PP Require Import Gen.Src_queues Queues.UsqDefs Queues.UsqProofs Queues.RingDefs Queues.RingProofs Queues.PcqDefs Queues.PcqProofs.
 
 (* ---------- UnboundedSingleQueue (util/pcqueue.hh:238-300) ---------- *)
 
@@ -80,3 +81,173 @@ Example C16_nonvacuous_usq_run :
             rev (u_got s) = [7; 8; 9]%Z /\ u_rd s = 1 /\ u_err s = None /\
             match u_heap s 0 with UFreed => True | _ => False end.
 Proof. eexists. vm_compute. repeat split. Qed.
+
+(* ---------- BlockQueue / Lease / ThreadedBufferedStream (util/threaded_buffered_stream.hh) ---------- *)
+
+(* never hand out a block that is still in use by the other side: for every number of blocks K >= 2,
+   block size B >= 1, every list of write() calls and every schedule, (1) while the owner holds a block
+   for filling and the writer thread holds one for writing they are different blocks, (2) when the owner
+   is about to acquire its next block (trash_ available) it is not the one the writer holds, (3) when the
+   writer is about to acquire (output_ available) it is not the one the owner is filling *)
+Theorem C16_ring_blocks_exclusive :
+  forall K B prog s, 2 <= K -> 1 <= B ->
+  reachable (ring_step K B) (ring_init (ring_output_init K) (ring_trash_init K) B prog) s ->
+  (owner_holds s = true -> writer_holds s = true -> r_pi s <> r_ci s) /\
+  (writer_holds s = true -> 1 <= r_trash s ->
+     (match r_ppc s with RPSpillWait _ | RPPoisonWait => True | _ => False end) -> r_pi s <> r_ci s) /\
+  (owner_holds s = true -> 1 <= r_out s -> r_cpc s = RCWait -> r_ci s <> r_pi s).
+Proof. intros K B prog s HK HB. exact (ring_exclusive_proof K B HK HB prog s). Qed.
+Print Assumptions C16_ring_blocks_exclusive.
+
+(* no deadlock, and the destructor always gets through: whenever neither the owner (constructor, writes,
+   destructor incl. join) nor the writer thread can take a step, both have finished *)
+Theorem C16_ring_no_deadlock :
+  forall K B prog s, 2 <= K -> 1 <= B ->
+  reachable (ring_step K B) (ring_init (ring_output_init K) (ring_trash_init K) B prog) s ->
+  ring_step K B s 0 = None -> ring_step K B s 1 = None ->
+  r_ppc s = RPDone /\ r_cpc s = RCDone.
+Proof. intros K B prog s HK HB. exact (ring_no_stuck_proof K B HK HB prog s). Qed.
+Print Assumptions C16_ring_no_deadlock.
+
+(* the file written by the threaded output stream equals the concatenation of all writes made to it
+   (write() calls of any size and in-place formatted values, operator<< of numbers, which hand over
+   partially filled blocks):
+   (1) at every moment, under every schedule, the bytes handed to the writer so far are a prefix of that
+   concatenation (nothing lost, duplicated or reordered); (2) once the destructor has returned (owner
+   finished, i.e. the writer thread was joined) the file is exactly the concatenation and was flushed once *)
+Theorem C16_ring_file_is_concatenation_of_writes :
+  forall K B prog s, 2 <= K -> 1 <= B -> Forall (rop_ok B) prog ->
+  reachable (ring_step K B) (ring_init (ring_output_init K) (ring_trash_init K) B prog) s ->
+  (exists rest, r_file s ++ rest = allbytes prog) /\
+  (r_ppc s = RPDone -> r_cpc s = RCDone -> r_file s = allbytes prog /\ r_flushes s = 1).
+Proof.
+  intros K B prog s HK HB Hok Hr. split.
+  - exact (ring_file_prefix_proof K B HK HB prog Hok s Hr).
+  - exact (ring_file_complete_proof K B HK HB prog Hok s Hr).
+Qed.
+Print Assumptions C16_ring_file_is_concatenation_of_writes.
+
+(* destroying the stream always flushes the remainder and joins its writer thread: every schedule of
+   constructor, writes and destructor is FINITE (a natural-number measure decreases with every step of
+   either thread), it can only end with both threads finished (C16_ring_no_deadlock), and then the file is
+   complete and flushed (C16_ring_file_is_concatenation_of_writes) *)
+Theorem C16_ring_destructor_always_completes :
+  forall K B prog ls s, 2 <= K -> 1 <= B -> Forall (rop_ok B) prog ->
+  run (ring_step K B) (ring_init (ring_output_init K) (ring_trash_init K) B prog) ls = Some s ->
+  length ls <= rmeasure B (ring_init (ring_output_init K) (ring_trash_init K) B prog).
+Proof. intros K B prog ls s HK HB Hok. exact (ring_runs_bounded_proof K B HK HB prog Hok ls s). Qed.
+Print Assumptions C16_ring_destructor_always_completes.
+
+(* with a single block the protocol of the source WOULD deadlock in the destructor (why K >= 2 is needed):
+   the owner waits for a free block after posting the poison, the writer exits without freeing one *)
+Theorem C16_ring_one_block_deadlocks :
+  match run (ring_step 1 4) (ring_init (ring_output_init 1) (ring_trash_init 1) 4 []) [0; 0; 0; 1; 1; 1; 1; 1] with
+  | Some s => ring_step 1 4 s 0 = None /\ ring_step 1 4 s 1 = None /\ r_ppc s = RPPoisonWait
+  | None => False
+  end.
+Proof. vm_compute. repeat split. Qed.
+
+Example C16_nonvacuous_ring_constants : 2 <= ring_blocks /\ 1 <= ring_block_size.
+Proof. split; apply Nat.leb_le; vm_compute; reflexivity. Qed.
+
+(* a run with two writes crossing a block boundary (K = 3, B = 4) that ends with both threads finished and
+   the bytes in the file in order *)
+Example C16_nonvacuous_ring_run :
+  match run (ring_step 3 4) (ring_init (ring_output_init 3) (ring_trash_init 3) 4 [RWrite [1; 2; 3]%Z; RWrite [4; 5; 6]%Z])
+            [0; 0; 0; 0; 0; 0; 0; 0; 0; 0; 1; 1; 1; 1; 0; 1; 1; 1; 1; 1; 1; 1; 0; 0] with
+  | Some s => r_ppc s = RPDone /\ r_cpc s = RCDone /\ r_file s = [1; 2; 3; 4; 5; 6]%Z /\ r_flushes s = 1
+  | None => False
+  end.
+Proof. vm_compute. repeat split. Qed.
+
+(* ---------- PCQueue (util/pcqueue.hh:128-230), any number of producers and consumers ---------- *)
+
+(* every thread starts at the beginning of its first Produce / Consume call *)
+Definition initial_thread (t : qthread) : Prop :=
+  match t with QProd QPWait _ => True | QCons QCWait _ _ => True | _ => False end.
+
+Lemma initial_threads_wf threads : Forall initial_thread threads ->
+  forall i t, nth_error threads i = Some t -> thread_wf t /\ pw t + wr t + cw t + rd t = 0.
+Proof.
+  intros HF i t Ht. apply nth_error_In in Ht. rewrite Forall_forall in HF. specialize (HF t Ht).
+  destruct t as [[] [|v r]|[] [|w] g]; simpl in *; try contradiction; auto.
+Qed.
+
+(* exactly once, in order: for every capacity n >= 1, every set of producer/consumer programs and every
+   schedule (semaphore/mutex granularity), the values copied out of the slots, in copy order, are a
+   prefix of the values stored, in store order (refinement of a FIFO of at most n elements) *)
+Theorem C16_pcq_fifo :
+  forall n threads s, 1 <= n -> Forall initial_thread threads ->
+  reachable (pcq_step n) (pcq_init (pcq_empty_init n) (pcq_used_init n) threads) s ->
+  q_rlog s = firstn (length (q_rlog s)) (q_wlog s) /\
+  length (q_rlog s) <= length (q_wlog s) /\ length (q_wlog s) - length (q_rlog s) <= n.
+Proof. intros n threads s Hn HF. exact (pcq_fifo_proof n Hn threads (initial_threads_wf threads HF) s). Qed.
+Print Assumptions C16_pcq_fifo.
+
+(* never hand out a slot that is still in use: the storing producer's slot differs from the copying
+   consumer's slot and from every stored-but-unread slot; at most one producer and one consumer are
+   inside their critical sections *)
+Theorem C16_pcq_slots_exclusive :
+  forall n threads s, 1 <= n -> Forall initial_thread threads ->
+  reachable (pcq_step n) (pcq_init (pcq_empty_init n) (pcq_used_init n) threads) s ->
+  (forall i j todo want got,
+      nth_error (q_threads s) i = Some (QProd QPWrite todo) ->
+      nth_error (q_threads s) j = Some (QCons QCRead want got) -> q_pat s <> q_cat s) /\
+  (forall i todo k, nth_error (q_threads s) i = Some (QProd QPWrite todo) ->
+      length (q_rlog s) <= k < length (q_wlog s) -> q_pat s <> k mod n) /\
+  (forall i j t u, i <> j -> nth_error (q_threads s) i = Some t -> nth_error (q_threads s) j = Some u ->
+      pcs t + pcs u <= 1 /\ ccs t + ccs u <= 1).
+Proof. intros n threads s Hn HF. exact (pcq_slots_exclusive_proof n Hn threads (initial_threads_wf threads HF) s). Qed.
+Print Assumptions C16_pcq_slots_exclusive.
+
+(* never blocked forever while a matching producer/consumer exists: if no thread can move, all threads
+   are at the start of a call, and the unfinished ones are all producers facing a full queue with no
+   consumer left, or all consumers facing an empty queue with no producer left *)
+Theorem C16_pcq_blocked_only_without_partner :
+  forall n threads s, 1 <= n -> Forall initial_thread threads ->
+  reachable (pcq_step n) (pcq_init (pcq_empty_init n) (pcq_used_init n) threads) s ->
+  (forall i, pcq_step n s i = None) ->
+  (forall i t, nth_error (q_threads s) i = Some t ->
+      (exists todo, t = QProd QPWait todo) \/ (exists want got, t = QCons QCWait want got)) /\
+  ((exists i v todo, nth_error (q_threads s) i = Some (QProd QPWait (v :: todo))) ->
+      q_empty s = 0 /\ length (q_wlog s) = length (q_rlog s) + n /\
+      forall j want got, nth_error (q_threads s) j = Some (QCons QCWait want got) -> want = 0) /\
+  ((exists j w got, nth_error (q_threads s) j = Some (QCons QCWait (S w) got)) ->
+      q_used s = 0 /\ length (q_wlog s) = length (q_rlog s) /\
+      forall i todo, nth_error (q_threads s) i = Some (QProd QPWait todo) -> todo = []).
+Proof. intros n threads s Hn HF. exact (pcq_no_stuck_proof n Hn threads (initial_threads_wf threads HF) s). Qed.
+Print Assumptions C16_pcq_blocked_only_without_partner.
+
+(* in production order per producer: at every moment, under every schedule, what a producer thread has
+   stored so far (in the global store order, which by C16_pcq_fifo is the delivery order) followed by what
+   it still has to store is exactly its program - nothing of one producer is reordered, lost or duplicated *)
+Theorem C16_pcq_per_producer_order :
+  forall n threads s,
+  reachable (pcq_step n) (pcq_init (pcq_empty_init n) (pcq_used_init n) threads) s ->
+  map snd (q_wtlog s) = q_wlog s /\
+  forall i t0 t, nth_error threads i = Some t0 -> nth_error (q_threads s) i = Some t ->
+                 stored_by i s ++ to_store t = to_store t0.
+Proof. intros n threads s. exact (pcq_per_producer_order_proof n threads s). Qed.
+Print Assumptions C16_pcq_per_producer_order.
+
+(* every schedule is finite: each step of any thread decreases the total remaining work
+   (5 steps per Produce/Consume call), whatever the capacity *)
+Theorem C16_pcq_runs_finite :
+  forall n threads ls s,
+  run (pcq_step n) (pcq_init (pcq_empty_init n) (pcq_used_init n) threads) ls = Some s ->
+  length ls <= wsum tw threads.
+Proof.
+  intros n threads ls s H. pose proof (pcq_runs_bounded_proof n ls _ _ H) as G. simpl in G. lia.
+Qed.
+Print Assumptions C16_pcq_runs_finite.
+
+(* non-vacuity: two producers and one consumer on a 1-slot queue; a complete run delivers all three items,
+   each producer's items in its own order *)
+Example C16_nonvacuous_pcq_run :
+  match run (pcq_step 1) (pcq_init (pcq_empty_init 1) (pcq_used_init 1)
+                           [QProd QPWait [1; 2]%Z; QProd QPWait [7]%Z; QCons QCWait 3 []])
+            [0; 0; 0; 0; 0; 2; 2; 2; 2; 2; 1; 1; 1; 1; 1; 2; 2; 2; 2; 2; 0; 0; 0; 0; 0; 2; 2; 2; 2; 2] with
+  | Some s => q_threads s = [QProd QPWait []; QProd QPWait []; QCons QCWait 0 [2; 7; 1]%Z] /\ q_wlog s = [1; 7; 2]%Z /\ q_rlog s = [1; 7; 2]%Z
+  | None => False
+  end.
+Proof. vm_compute. repeat split. Qed.
